@@ -663,3 +663,70 @@ Proof.
     + apply IH; [now apply Inv_remove_all|exact Hin|exact Ho| |exact Hc].
       now rewrite lookup_remove_all, Hh.
 Qed.
+
+(* ---------------------------------------------------------------- locks (C08) ----------------- *)
+
+Definition held_by (E : env) (d k tok : bytes) (now : Z) (s : state) : Prop :=
+  exists e, vlookup now (ploc E d k) s = Some e /\ ev e = tok.
+
+(* Lock returns a token only if the key is free or its holder's timeout has elapsed *)
+Theorem lock_ok_iff_free E d k tok timeout now ts s :
+  snd (lock E d k tok timeout now ts s) = ROk <-> vlookup now (ploc E d k) s = None.
+Proof.
+  unfold lock, put. cbn [nx xx]. rewrite vlookup_ploc_vis. destruct (vlookup now (ploc E d k) s); cbn; split; congruence.
+Qed.
+Theorem lock_refused_keeps_state E d k tok timeout now ts s :
+  snd (lock E d k tok timeout now ts s) <> ROk -> lock E d k tok timeout now ts s = (s, RKeyFound).
+Proof.
+  unfold lock, put. cbn [nx xx]. rewrite vlookup_ploc_vis. destruct (vlookup now (ploc E d k) s); cbn; congruence.
+Qed.
+
+(* after a successful Lock the caller holds the key; with timeout t (ms) exactly until now + t *)
+Theorem lock_holds E d k tok timeout now ts s :
+  0 <= now -> 0 <= timeout -> snd (lock E d k tok timeout now ts s) = ROk -> default_ttl E d = 0 ->
+  forall t', now <= t' ->
+    (held_by E d k tok t' (fst (lock E d k tok timeout now ts s)) <-> (timeout = 0 \/ t' < now + timeout)).
+Proof.
+  intros Hn Ht Hok Hd t' Hle. apply lock_ok_iff_free in Hok. unfold lock, put. cbn [nx xx pexp]. rewrite vlookup_ploc_vis, Hok.
+  cbn [andb negb fst]. unfold held_by, vlookup. rewrite lookup_write_all, holder_ploc. unfold visible, expired. cbn [ettl ev].
+  destruct (Z.eqb_spec timeout 0) as [->|Hne]; cbn [prepare_ttl].
+  - rewrite Hd. cbn. split; [auto|]. intros _. eexists. split; reflexivity.
+  - destruct (Z.eqb_spec (now + timeout) 0); [lia|]. cbn. destruct (Z.leb_spec (now + timeout) t'); cbn.
+    + split; [intros (e & He & _); discriminate|lia].
+    + split; [lia|]. intros _. eexists. split; reflexivity.
+Qed.
+
+(* token safety: Unlock / Lease with a token that is not the current holder's fail and change nothing *)
+Theorem unlock_wrong_token E d k tok now s :
+  Inv E s -> no_idle E -> ~ held_by E d k tok now s -> unlock E d k tok now s = (s, RNoSuchLock).
+Proof.
+  intros HI Hi Hn. unfold unlock. pose proof (get_entry_content E d k now s HI Hi) as Hg.
+  destruct (get_entry E d k now s) as [g|]; [|reflexivity].
+  destruct (vlookup now (ploc E d k) s) as [e|] eqn:Hv; cbn in Hg; [|discriminate].
+  unfold content in Hg. injection Hg as Hev _ _. destruct (bytes_eqb (ev g) tok) eqn:Eb; [|reflexivity].
+  apply bytes_eqb_eq in Eb. exfalso. apply Hn. exists e. split; [exact Hv|congruence].
+Qed.
+Theorem lease_wrong_token E d k tok ms now ts s :
+  Inv E s -> no_idle E -> ~ held_by E d k tok now s -> lease E d k tok ms now ts s = (s, RNoSuchLock).
+Proof.
+  intros HI Hi Hn. unfold lease. pose proof (get_entry_content E d k now s HI Hi) as Hg.
+  destruct (get_entry E d k now s) as [g|]; [|reflexivity].
+  destruct (vlookup now (ploc E d k) s) as [e|] eqn:Hv; cbn in Hg; [|discriminate].
+  unfold content in Hg. injection Hg as Hev _ _. destruct (bytes_eqb (ev g) tok) eqn:Eb; [|reflexivity].
+  apply bytes_eqb_eq in Eb. exfalso. apply Hn. exists e. split; [exact Hv|congruence].
+Qed.
+
+(* the holder's Unlock releases the key *)
+Theorem unlock_by_holder E d k tok now s :
+  Inv E s -> no_idle E -> held_by E d k tok now s ->
+  snd (unlock E d k tok now s) = ROk /\ vlookup now (ploc E d k) (fst (unlock E d k tok now s)) = None.
+Proof.
+  intros HI Hi (e & Hv & He). unfold unlock. pose proof (get_entry_content E d k now s HI Hi) as Hg. rewrite Hv in Hg.
+  destruct (get_entry E d k now s) as [g|]; cbn in Hg; [|discriminate]. unfold content in Hg. injection Hg as Hev _ _.
+  assert (Eb : bytes_eqb (ev g) tok = true) by (apply bytes_eqb_eq; congruence). rewrite Eb. cbn [fst snd delete fold_left].
+  split; [reflexivity|]. unfold vlookup. now rewrite lookup_remove_all, holder_ploc.
+Qed.
+
+(* at most one holder at any instant *)
+Theorem holder_unique E d k t1 t2 now s : held_by E d k t1 now s -> held_by E d k t2 now s -> t1 = t2.
+Proof. intros (e1 & H1 & <-) (e2 & H2 & <-). congruence. Qed.
